@@ -134,6 +134,14 @@ func enumScenarios() []scenario {
 			}
 		}
 	}
+	for _, init := range []int{0, 2} {
+		add(fmt.Sprintf("storageSym/init%d:genRetry/gen", init), gens(sym, init), op(opGenRetry, sym, 0), op(kshist.OpGen, sym, 0))
+		add(fmt.Sprintf("storageSym/init%d:genRetry/genRetry", init), gens(sym, init), op(opGenRetry, sym, 0), op(opGenRetry, sym, 0))
+		add(fmt.Sprintf("storageSym/init%d:genRetry/importOverwrite", init), gens(sym, init), op(opGenRetry, sym, 0), op(opImportOverwrite, sym, 0))
+	}
+	// back-end level: two claims of one path
+	add("claim/claim", nil, kshist.Op{Kind: opClaim, ID: "s1"}, kshist.Op{Kind: opClaim, ID: "s1"})
+	add("claim/gen", nil, kshist.Op{Kind: opClaim, ID: "s1"}, op(kshist.OpGen, sym, 0))
 	// different rings: only the store lock is shared
 	add("different-rings:gen/gen", gens(sym, 1), op(kshist.OpGen, sym, 0), op(kshist.OpGen, sym2, 0))
 	add("different-rings:gen/destroyCurrent", append(gens(sym, 1), gens(sym2, 2)...), op(kshist.OpGen, sym, 0), op(kshist.OpDestroyCurrent, sym2, 0))
@@ -142,23 +150,54 @@ func enumScenarios() []scenario {
 }
 
 func TestEnumerate(t *testing.T) {
-	R.Rule("TestEnumerate", fmt.Sprintf("systematic: for 2 writers x 1 operation each (pairs of generate, destroy current, destroy rotated, import, import with overwrite, read current, read all on the same new ring / the same ring with 3 generations / different rings; in-memory back end) ALL schedules at back-end-call granularity with <= %d pre-emptions, by stateless depth-first search over the runnable sets the scheduler reports. Quick runs the first 2 scenarios, thorough all of them (sharded by scenario). Non-trivial = the two writers' back-end calls interleave on the same ring.", enumBudget))
+	R.Rule("TestEnumerate", fmt.Sprintf("systematic: for 2 writers x 1 operation each (pairs of generate, destroy current, destroy rotated, import, import with overwrite, read current, read all on the same new ring / the same ring with 3 generations / different rings; in-memory back end) ALL schedules at back-end-call granularity with <= %d pre-emptions (quick) / with any number of pre-emptions (thorough; the store lock leaves few scheduling points, so the full space is small), by stateless depth-first search over the runnable sets the scheduler reports. Thorough adds 3-thread scenarios (third writer or a reader) with <= %d pre-emptions. Sharded by scenario. Non-trivial = two writers' back-end calls interleave on the same ring.", enumBudget, enumBudget))
+	type item struct {
+		sc     scenario
+		third  *Script
+		budget int
+	}
+	var items []item
+	budget2 := enumBudget
+	if hx.Tier() == "thorough" {
+		budget2 = 1 << 20
+	}
 	scs := enumScenarios()
-	if hx.Tier() != "thorough" {
-		scs = scs[:2]
+	for _, sc := range scs {
+		items = append(items, item{sc: sc, budget: budget2})
+	}
+	if hx.Tier() == "thorough" {
+		for _, sc := range scs {
+			if !mutating(sc.a.Kind) || !mutating(sc.b.Kind) {
+				continue
+			}
+			k := kshist.K{Kind: sc.a.Key, ID: sc.a.ID}
+			for _, third := range []Script{
+				{Role: "writer", Ops: []kshist.Op{{Kind: kshist.OpGen, Key: k.Kind, ID: k.ID}}},
+				{Role: "reader", Ops: []kshist.Op{{Kind: kshist.OpReadAll, Key: k.Kind, ID: k.ID}}},
+			} {
+				third := third
+				x := sc
+				x.name += "+" + third.Role + ":" + third.Ops[0].Kind
+				items = append(items, item{sc: x, third: &third, budget: enumBudget})
+			}
+		}
 	}
 	shards, _ := strconv.Atoi(os.Getenv("VERIF_SHARDS"))
 	if shards < 1 {
 		shards = 1
 	}
 	total := 0
-	for idx, sc := range scs {
+	for idx, it := range items {
 		if idx%shards != hx.Shard() {
 			continue
 		}
+		sc := it.sc
 		base := Case{Backend: "mem", Setup: sc.setup, Threads: []Script{{Role: "writer", Ops: []kshist.Op{sc.a}}, {Role: "writer", Ops: []kshist.Op{sc.b}}}}
+		if it.third != nil {
+			base.Threads = append(base.Threads, *it.third)
+		}
 		n := 0
-		complete := enumerate(base, enumBudget, func(c Case, vs hx.Vs, run *Run) bool {
+		complete := enumerate(base, it.budget, func(c Case, vs hx.Vs, run *Run) bool {
 			n++
 			if run.Discard != "" {
 				R.Seen("TestEnumerate", c, false, "inconclusive")
@@ -166,14 +205,18 @@ func TestEnumerate(t *testing.T) {
 				return true
 			}
 			R.Seen("TestEnumerate", c, run.Inter, append([]string{"scenario:" + sc.name}, run.Classes...)...)
-			R.Report(t, "TestEnumerate", c, vs)
+			report(t, "TestEnumerate", c, vs)
 			return !t.Failed()
 		})
 		total += n
 		if complete {
 			R.Class("TestEnumerate", "exhaustive-scenarios")
-			R.Note("TestEnumerate: scenario %s exhaustive for <= %d pre-emptions: %d schedules", sc.name, enumBudget, n)
+			if it.budget > enumBudget {
+				R.Note("TestEnumerate: scenario %s exhaustive (all schedules): %d schedules", sc.name, n)
+			} else {
+				R.Note("TestEnumerate: scenario %s exhaustive for <= %d pre-emptions: %d schedules", sc.name, it.budget, n)
+			}
 		}
 	}
-	t.Logf("enumerated %d schedules", total)
+	t.Logf("enumerated %d schedules in %d scenarios", total, len(items))
 }
